@@ -47,6 +47,14 @@ fn replay_align(case: &Value) -> Option<(String, String)> {
     let e = vi(&case["E"]) as f64;
     let times: Vec<(f64, f64)> = va(&case["times"]).iter().enumerate().map(|(i, t)| (t_of(vi(&t[0]), e, i), t_of(vi(&t[1]), e, i + 1))).collect();
     let labels: Vec<jlabel::Label> = (0..times.len()).map(|_| LABEL.parse().unwrap()).collect();
+    // Labels::new refuses label / time lists of different lengths (an error, not a panic)
+    let mut longer = times.clone();
+    longer.push((0.0, 1.0));
+    match guarded(|| Labels::new(labels.clone(), Some(longer)).is_err()) {
+        Ok(true) => {}
+        Ok(false) => return Some(("labels:length-mismatch-accepted".into(), "Labels::new accepted times of a different length".into())),
+        Err(m) => return Some((format!("labels:panic:{}", m), m)),
+    }
     let l = match guarded(|| Labels::new(labels, Some(times.clone()))) {
         Err(m) => return Some((format!("labels:panic:{}", m), m)),
         Ok(Err(e)) => return Some(("labels:error".into(), format!("Labels::new rejected equal-length inputs: {}", e))),
@@ -286,7 +294,8 @@ pub fn record(seed: u64, n: usize, mode: &str, out_path: &str) {
             let mut t: u64 = if rng.chance(0.5) { 0 } else { rng.below(3_000_000) as u64 };
             let mut lines = Vec::new();
             let mut tin = Vec::new();
-            for lab in &labs {
+            let only_final_end = rng.chance(0.12);
+            for (li, lab) in labs.iter().enumerate() {
                 let dur = match rng.below(6) {
                     0 => 0,
                     1 => rng.below(100_000) as u64,
@@ -305,6 +314,14 @@ pub fn record(seed: u64, n: usize, mode: &str, out_path: &str) {
                         e = None;
                     }
                     _ => {}
+                }
+                if only_final_end {
+                    s = None;
+                    if li + 1 < labs.len() {
+                        e = None;
+                    } else if e.is_none() {
+                        e = Some(t);
+                    }
                 }
                 let both_missing = s.is_none() && e.is_none();
                 if both_missing && rng.chance(0.5) {
